@@ -200,32 +200,28 @@ func main() {
 	vx.Main(cfg, r, scs, quick, thorough, rule)
 }
 
-// stable runs one history; a run in which the redis client re-sent a script command is repeated,
-// and a failing verdict must reproduce twice more before it is believed (else: ERROR, exit 2).
+// stable runs one history; a run in which the redis client re-sent a command (fence.go) is
+// repeated — if that persists it is no accident but the implementation's behaviour and the last
+// run is judged as it is. A failing verdict must reproduce twice more before it is believed
+// (else: ERROR nondeterminism, exit 2).
 func stable(what string, verbose bool, run func(verbose bool) runResult) runResult {
 	e := getEnv()
-	var res runResult
-	for attempt := 0; ; attempt++ {
-		e.resent.Store(false)
-		res = run(verbose)
-		if !e.resent.Load() {
-			break
+	once := func(v bool) runResult {
+		var res runResult
+		for attempt := 0; attempt < 4; attempt++ {
+			e.resent.Store(false)
+			res = run(v)
+			if !e.resent.Load() {
+				break
+			}
+			fmt.Fprintf(os.Stderr, "note: redis client re-sent a command during %s (attempt %d, verdict %q)\n", what, attempt, res.class)
 		}
-		fmt.Fprintf(os.Stderr, "note: redis client re-sent a command during %s (verdict %q discarded, history re-executed)\n", what, res.class)
-		if attempt >= 5 {
-			fmt.Printf("ERROR the redis client keeps re-sending commands (overloaded machine?); history %s\n", what)
-			os.Exit(2)
-		}
+		return res
 	}
+	res := once(verbose)
 	if res.err != "" {
 		for i := 0; i < 2; i++ {
-			e.resent.Store(false)
-			again := run(false)
-			if e.resent.Load() {
-				i--
-				continue
-			}
-			if again.class != res.class {
+			if again := once(false); again.class != res.class {
 				fmt.Printf("ERROR nondeterminism: history %s gave class %q, then %q\n", what, res.class, again.class)
 				os.Exit(2)
 			}
